@@ -184,6 +184,12 @@ Theorem C10_python_generic_enum_arg_refuted :
 Proof. exact Proofs.C10.python_generic_enum_arg_refuted. Qed.
 Print Assumptions C10_python_generic_enum_arg_refuted.
 
+Theorem C10_python_digit_name_refuted :
+  exists cfg pd text, dom_C10 CPY pd = true /\ known_C10 CPY [] pd = ["C10-python-digit-name"%string] /\
+    py_generate uc_exec cfg pd = Ok text /\ contains_sub (lit "    1_A = ""1a""") text = true.
+Proof. exact Proofs.C10.python_digit_name_refuted. Qed.
+Print Assumptions C10_python_digit_name_refuted.
+
 (* reachable from the IR only (the parser rejects tag/content on an enum without data-carrying variants) *)
 Theorem C10_python_empty_union_refuted :
   exists cfg pd text, known_C10 CPY [] pd = ["C10-python-empty-union"%string] /\
